@@ -147,7 +147,12 @@ def _cases_task(task):
                 table = add_orphans(rng, g, table, 20)
             low = None
             gap = rng.choice([0, 0, 0.1])
-        prof = _profile(gap=gap)
+        pkw = {}
+        if rng.random() < 0.3:
+            # non-default parameters of the stage (thresholds, novel-variant penalty): the stage must use the profile's values
+            pkw = rng.choice([{"threshold": 0.3}, {"threshold": 0.7}, {"min_coverage": 5.0}, {"major_novel": 5.0}, {"major_novel": 0.6},
+                              {"cn_max": 6}])
+        prof = _profile(gap=gap, **pkw)
         indels = None
         if rng.random() < 0.2:
             table, indels = evidence.realistic_indels(table)
@@ -168,7 +173,7 @@ def _cases_task(task):
         case = project.major_case(cid, g, cov, cn_sol, res)
         case["raised"] = raised
         rows.append(case)
-        meta[cid] = {"gene": f"{gname}/{genome}", "struct": struct, "table": table, "low": low, "gap": gap, "tag": mode, "indels": [[k[0], k[1], v[0], v[1]] for k, v in (indels or {}).items()],
+        meta[cid] = {"gene": f"{gname}/{genome}", "struct": struct, "table": table, "low": low, "gap": gap, "params": pkw, "tag": mode, "indels": [[k[0], k[1], v[0], v[1]] for k, v in (indels or {}).items()],
                      "planted": [b[0] for b in bag], "ncombos": nc, "raised": raised,
                      "result": [(sorted(sa.major for sa, n_ in s.solution.items() for _ in range(n_)), [str(m_) for m_ in s.added], s.score) for s in res]}
     return rows, meta, skipped
@@ -269,7 +274,7 @@ def replay(path):
     table = {int(p): v for p, v in m["table"].items()}
     low = {int(p): {o: tuple(x) for o, x in v.items()} for p, v in (m.get("low") or {}).items()} or None
     indels = {(int(a), b): (c, d) for a, b, c, d in m.get("indels", [])} or None
-    cov = evidence.make_coverage(g, _profile(gap=m["gap"]), table, low, indels)
+    cov = evidence.make_coverage(g, _profile(gap=m["gap"], **m.get("params", {})), table, low, indels)
     with aldyenv.quiet_stderr():
         cn_sol, res = run_major(g, cov, m["struct"])
     case = project.major_case("replay", g, cov, cn_sol, res)
